@@ -589,8 +589,19 @@ Definition poll_result (g : cfg) (s : st) (c : nat) (x : closer) : st :=
   end.
 
 Ltac pnorm :=
-  unfold set_closers, set_wwoken, spawn_drop, set_droppers, try_unwrap, first_poll;
-  cbn [strong waits waker wwoken fd closes handles ops forgotten closers droppers].
+  unfold set_closers, set_wwoken, spawn_drop, set_droppers, try_unwrap, first_poll, w_pc;
+  cbn [strong waits waker wwoken fd closes handles ops forgotten closers droppers pc cf winner].
+
+(* execute one LPoll step of closer c whose entry is known through Hx *)
+Ltac pstep Hx :=
+  cbn [poll_run step]; unfold poll_step at 1; cbn [closers];
+  first [rewrite (nth_upd_same _ _ _ _ Hx) | rewrite Hx];
+  cbn [pc cf winner]; pnorm; rewrite ?upd_upd; cbn [pc cf winner].
+
+(* look at the closer after the step: does the poll return? *)
+Ltac pret Hx :=
+  cbn [closers]; first [rewrite (nth_upd_same _ _ _ _ Hx) | rewrite Hx];
+  unfold returns; cbn [pc cf winner negb].
 
 Lemma poll_tail_run g k n w wk ww f cl h o fg cs dr c x wi :
   nth_error cs c = Some x ->
@@ -599,20 +610,14 @@ Lemma poll_tail_run g k n w wk ww f cl h o fg cs dr c x wi :
   poll_tail (mk_st n w wk ww f cl h o fg cs dr) c x w ww wi.
 Proof.
   intros Hx. unfold poll_tail. cbn [strong waits waker wwoken fd closes handles ops forgotten closers droppers].
-  cbn [poll_run step]. unfold poll_step at 1. cbn [closers]. rewrite (nth_upd_same _ _ _ _ Hx). cbn [pc].
-  pnorm. destruct (n =? 1) eqn:E.
-  - cbn [closers]. rewrite upd_upd. rewrite (nth_upd_same _ _ _ _ Hx). cbn [w_pc pc cf winner returns].
+  pstep Hx. destruct (n =? 1) eqn:E.
+  - pnorm. rewrite ?upd_upd. pret Hx.
     destruct (cf x) eqn:Ecf; cbn [negb].
-    + cbn [poll_run step]. unfold poll_step at 1. cbn [closers]. rewrite (nth_upd_same _ _ _ _ Hx).
-      cbn [pc cf]. pnorm. rewrite upd_upd. rewrite (nth_upd_same _ _ _ _ Hx). cbn [w_pc pc cf winner returns].
-      reflexivity.
+    + pstep Hx. pret Hx. reflexivity.
     + reflexivity.
-  - cbn [closers]. rewrite upd_upd. rewrite (nth_upd_same _ _ _ _ Hx). cbn [w_pc pc cf winner returns].
-    cbn [poll_run step]. unfold poll_step at 1. cbn [closers]. rewrite (nth_upd_same _ _ _ _ Hx). cbn [pc].
-    pnorm. rewrite upd_upd. rewrite (nth_upd_same _ _ _ _ Hx). cbn [w_pc pc cf winner returns].
-    cbn [poll_run step]. unfold poll_step at 1. cbn [closers]. rewrite (nth_upd_same _ _ _ _ Hx). cbn [pc].
-    pnorm. rewrite E. cbn [closers]. rewrite upd_upd. rewrite (nth_upd_same _ _ _ _ Hx).
-    cbn [w_pc pc cf winner returns]. reflexivity.
+  - pnorm. rewrite ?upd_upd. pret Hx.
+    pstep Hx. pret Hx.
+    pstep Hx. rewrite E. pnorm. rewrite ?upd_upd. pret Hx. reflexivity.
 Qed.
 
 Lemma poll_run_spec g s c x :
@@ -624,28 +629,19 @@ Proof.
   unfold poll_result. cbn [strong waits waker wwoken fd closes handles ops forgotten closers droppers].
   destruct (pc x) eqn:Hpc; try discriminate.
   - (* CUnpolled *)
-    cbn [poll_run step]. unfold poll_step at 1. cbn [closers]. rewrite Hx, Hpc. pnorm.
-    destruct w.
-    + pnorm. rewrite (nth_upd_same _ _ _ _ Hx). cbn [w_pc pc returns].
-      rewrite (upd_const _ _ _ _ Hx). reflexivity.
-    + pnorm. rewrite (nth_upd_same _ _ _ _ Hx). cbn [pc returns].
-      rewrite (upd_const _ _ _ _ Hx). apply (poll_tail_run g 1). exact Hx.
+    pstep Hx. rewrite Hpc. pnorm. destruct w.
+    + pnorm. pret Hx. rewrite (upd_const _ _ _ _ Hx). reflexivity.
+    + pnorm. pret Hx. rewrite (upd_const _ _ _ _ Hx). apply (poll_tail_run g 1). exact Hx.
   - (* CCreated *)
-    cbn [poll_run step]. unfold poll_step at 1. cbn [closers]. rewrite Hx, Hpc. pnorm.
-    destruct w.
-    + pnorm. rewrite (nth_upd_same _ _ _ _ Hx). cbn [w_pc pc returns].
-      rewrite (upd_const _ _ _ _ Hx). reflexivity.
-    + pnorm. rewrite (nth_upd_same _ _ _ _ Hx). cbn [pc returns].
-      rewrite (upd_const _ _ _ _ Hx). apply (poll_tail_run g 1). exact Hx.
+    pstep Hx. rewrite Hpc. pnorm. destruct w.
+    + pnorm. pret Hx. rewrite (upd_const _ _ _ _ Hx). reflexivity.
+    + pnorm. pret Hx. rewrite (upd_const _ _ _ _ Hx). apply (poll_tail_run g 1). exact Hx.
   - (* CPending *)
-    cbn [poll_run step]. unfold poll_step at 1. cbn [closers]. rewrite Hx, Hpc. pnorm.
-    rewrite (nth_upd_same _ _ _ _ Hx). cbn [w_pc pc returns].
-    rewrite (upd_const _ _ _ _ Hx). cbn [w_pc]. apply (poll_tail_run g 1). exact Hx.
+    pstep Hx. rewrite Hpc. pnorm. pret Hx.
+    rewrite (upd_const _ _ _ _ Hx). apply (poll_tail_run g 1). exact Hx.
   - (* CClosing *)
-    cbn [poll_run step]. unfold poll_step at 1. cbn [closers]. rewrite Hx, Hpc. pnorm.
-    rewrite Hx. unfold returns. rewrite Hpc. reflexivity.
+    pstep Hx. rewrite Hpc. pnorm. pret Hx. rewrite Hpc. reflexivity.
   - (* CClosed *)
-    cbn [poll_run step]. unfold poll_step at 1. cbn [closers]. rewrite Hx, Hpc. pnorm.
-    rewrite (nth_upd_same _ _ _ _ Hx). cbn [w_pc pc returns].
+    pstep Hx. rewrite Hpc. pnorm. pret Hx.
     rewrite (upd_const _ _ _ _ Hx). reflexivity.
 Qed.
